@@ -402,6 +402,32 @@ def op_frozen(case, pm):
     return res
 
 
+def op_preserved(case, pm):
+    """C10 in this interpreter: every identifier spelled like a name the caller (or a literal __all__) asks to keep is still there, as often as before.
+    The programs give each such name a single role, and the option sets remove no statements, so occurrences cannot legitimately disappear."""
+    src = get_src(case)
+    try:
+        tree = ast.parse(src)
+        compile(src, 'preserved_case', 'exec', dont_inherit=True)
+    except Exception:
+        return {'status': 'skip', 'reason': 'uncompilable here'}
+    try:
+        out = pm.minify(src, **make_kwargs(pm, case.get('opts') or {}))
+        o = out
+        if PY2 and isinstance(o, unicode):
+            o = o.encode('utf-8')
+        tree2 = ast.parse(o)
+    except Exception as e:
+        return {'status': 'error', 'exc': exc_info(e)}
+    a, b = _identifiers(tree), _identifiers(tree2)
+    res = {'status': 'held', 'violations': [], 'out': out[:600], 'changed': sorted(a) != sorted(b)}
+    for name in case['expect']:
+        if b.count(name) < a.count(name):
+            res['status'] = 'violation'
+            res['violations'].append({'kind': 'preserved-name-renamed', 'detail': '%s occurs %d times in the input and %d times in the output' % (name, a.count(name), b.count(name))})
+    return res
+
+
 # ---- C01 cross-interpreter layer: run P and minify(P) in this interpreter, compare what each prints / raises / leaves in its namespace
 class _Sink(object):
     def __init__(self):
@@ -546,7 +572,7 @@ def op_run(case, pm):
     return res
 
 
-OPS = {'run': op_run, 'frozen': op_frozen, 'rt': op_rt, 'mc': op_mc, 'fold': op_fold, 'compile': op_compile, 'valeq': op_valeq}
+OPS = {'run': op_run, 'preserved': op_preserved, 'frozen': op_frozen, 'rt': op_rt, 'mc': op_mc, 'fold': op_fold, 'compile': op_compile, 'valeq': op_valeq}
 
 
 def main():
